@@ -920,6 +920,9 @@ type foldReader struct {
 func (f *foldReader) compute(ctx context.Context) (Accumulator, error) {
 	in := frame.Make(f.op.dep, defaultChunksize, defaultChunksize)
 	accum := makeAccumulator(f.op.dep.Out(0), f.op.out.Out(1), f.op.fval)
+	if c, ok := accum.(interface{ setContext(context.Context) }); ok {
+		c.setContext(ctx)
+	}
 	for {
 		n, err := f.reader.Read(ctx, in)
 		if err != nil && err != sliceio.EOF {
